@@ -76,6 +76,98 @@ def eligible(a, types) -> bool:
     return False
 
 
+FUNCS = (ast.FunctionDef, ast.AsyncFunctionDef)
+COMPS = (ast.ListComp, ast.SetComp, ast.DictComp, ast.GeneratorExp)
+SCOPES = FUNCS + (ast.ClassDef, ast.Lambda) + COMPS
+
+
+def scope_visible(root, types):
+    """ids of the nodes below `root` that a scope=True walk of `root` shows, from the documented scope rules (walk()
+    docstring) stated on the stdlib AST: the scope of `root` itself, and of every nested scope node only the parts that
+    are evaluated in the enclosing scope (decorators, argument defaults and annotations, returns, type parameter bounds,
+    class bases and keywords, the first iterator of a comprehension) plus walrus targets inside comprehensions."""
+    vis = set()
+
+    def arg_nodes(args):
+        return args.posonlyargs + args.args + ([args.vararg] if args.vararg else []) + args.kwonlyargs + \
+            ([args.kwarg] if args.kwarg else [])
+
+    def tp_exprs(n):
+        out = []
+        for tp in getattr(n, 'type_params', ()):
+            for f in ('bound', 'default_value'):
+                v = getattr(tp, f, None)
+                if v is not None:
+                    out.append(v)
+        return out
+
+    def walrus_targets(n, skip):
+        for c in ast.iter_child_nodes(n):
+            if c is skip:
+                continue
+            if isinstance(c, ast.NamedExpr) and isinstance(c.target, ast.Name):
+                vis.add(id(c.target))
+            if isinstance(c, ast.Lambda):   # its body is a scope of its own; its defaults are evaluated in the comprehension
+                for d in list(c.args.defaults) + [d for d in c.args.kw_defaults if d is not None]:
+                    if isinstance(d, ast.NamedExpr) and isinstance(d.target, ast.Name):
+                        vis.add(id(d.target))
+                    walrus_targets(d, skip)
+                continue
+            walrus_targets(c, skip)
+
+    def visit(n, is_root):
+        vis.add(id(n))
+        if isinstance(n, FUNCS + (ast.Lambda,)):
+            args = n.args
+            if is_root:
+                vis.add(id(args))
+                for a in arg_nodes(args):
+                    vis.add(id(a))
+                for tp in getattr(n, 'type_params', ()):
+                    vis.add(id(tp))
+                for b in (n.body if isinstance(n.body, list) else [n.body]):
+                    visit(b, False)
+            else:
+                outer = list(getattr(n, 'decorator_list', ())) + tp_exprs(n)
+                if not isinstance(n, ast.Lambda):
+                    outer += [a.annotation for a in arg_nodes(args) if a.annotation is not None]
+                    if n.returns is not None:
+                        outer.append(n.returns)
+                outer += list(args.defaults) + [d for d in args.kw_defaults if d is not None]
+                for c in outer:
+                    visit(c, False)
+        elif isinstance(n, ast.ClassDef):
+            if is_root:
+                for tp in getattr(n, 'type_params', ()):
+                    vis.add(id(tp))
+                for b in n.body:
+                    visit(b, False)
+            else:
+                for c in list(n.decorator_list) + tp_exprs(n) + list(n.bases) + list(n.keywords):
+                    visit(c, False)
+        elif isinstance(n, COMPS):
+            first = n.generators[0].iter if n.generators else None
+            if is_root:
+                for c in ast.iter_child_nodes(n):
+                    if isinstance(c, ast.comprehension):
+                        vis.add(id(c))
+                        for cc in ast.iter_child_nodes(c):
+                            if cc is not first and not isinstance(cc, NOT_NODES):
+                                visit(cc, False)
+                    elif not isinstance(c, NOT_NODES):
+                        visit(c, False)
+            else:
+                walrus_targets(n, first)
+                if first is not None:   # evaluated in the enclosing scope, walked even when it is filtered out itself
+                    visit(first, False)
+        else:
+            for c in ast.iter_child_nodes(n):
+                if not isinstance(c, NOT_NODES):
+                    visit(c, False)
+    visit(root, True)
+    return vis
+
+
 def preorder(a, depth=0, out=None):
     """[(ast node, depth)] in source pre-order."""
     if out is None:
@@ -203,8 +295,9 @@ class Walk:
         else:
             nodes = preorder(W.a)
         self.nodes.append(nodes)
-        self.snaps.append([{'s': self.ser.of(getattr(n, 'f', None)), 'd': d, 'e': eligible(n, self.types)}
-                           for n, d in nodes])
+        vis = scope_visible(W.a, self.types) if nodes and self.cfg.get('scope') else None
+        self.snaps.append([{'s': self.ser.of(getattr(n, 'f', None)), 'd': d, 'e': eligible(n, self.types),
+                            'v': vis is None or id(n) in vis} for n, d in nodes])
         return len(self.snaps)
 
     @property
@@ -342,7 +435,7 @@ class Walk:
     # -- result --------------------------------------------------------------------------------------------------------
     def trace(self):
         cfg = dict(self.cfg)
-        cfg.update(api=self.api, exact=bool(self.exact), rootleave=(self.api == 'walk'), allform=self.allform, nested=bool(self.nested))
+        cfg.update(api=self.api, exact=bool(self.exact), allform=self.allform, nested=bool(self.nested))
         return {'id': self.tid, 'cfg': cfg, 'n0': self.n0, 'snaps': self.snaps, 'steps': self.steps,
                 'init': self.init_sync, 'final': self._sync()}
 
@@ -574,6 +667,9 @@ def order_agrees(src, wpath, types, back=False, scope=False):
     theirs = [w.ser.of(f) for f in w.W.walk(all_, scope=scope, back=back)]
     if not scope:
         return mine == theirs
+    vis = {s_['s'] for s_ in w.snaps[0] if s_['e'] and s_['v']}
+    if set(theirs) != vis:      # the stdlib statement of the scope rules disagrees with pfst on this subtree (C16 matter)
+        return False
     it = iter(mine)
     return all(any(x == y for y in it) for x in theirs)
 
@@ -777,7 +873,36 @@ SWEEP_SCOPE = [   # walked with scope=True: nodes handed out by the scope helper
     'def fn(p=[d1, d2]):\n    g = (m for m in it(z) for n in m)\n    w = lambda u=v: u\n    return g',
     'class K(B):\n    z = [i for i in rng(q) if (s := i)]\n    y = 2',
     'def fn(a, b=c):\n    def inner(x=[p, q], *, y, z=r) -> s:\n        return x\n    return inner',
+    # every scope kind as the node that is yielded (and then replaced by a node of another class)
+    'def fn(p=d0):\n    def inner(x=[q]) -> s:\n        return x\n    async def ainner(y=t):\n        pass\n'
+    '    @dk\n    class K(B, m=M):\n        z = 1\n    w = 2\n    return inner',
+    'def fn():\n    v = [lambda a=b: c, [i for i in r1], {j for j in r2}, {k: l for k in r3}, (m for m in r4), n]\n    return v',
+    # scope kinds as the first iterator of a comprehension (handed out by the scope helper)
+    'def fn():\n    v = [x for x in [y for y in z]]\n    u = {a for a in (lambda: q)}\n    t = (b for b in (c for c in d))\n    return v',
+    'class K:\n    f = lambda s, t=[u for u in w]: s\n    g = [h(lambda: i) for j in {k: l for k in m}]',
 ]
+# replacement nodes for the node just yielded under scope=True: all scope kinds and non-scope kinds
+SCOPE_EXPR_SNIPS = [
+    'nm{k}',
+    '[nm{k}a, nm{k}b]',
+    'lambda la{k}=lb{k}, *, lc{k}=ld{k}: le{k}',
+    '[ce{k} for ce{k} in ci{k}(cj{k}) if ck{k}]',
+    '{ce{k} for ce{k} in ci{k}}',
+    '{ce{k}: cf{k} for ce{k} in ci{k}}',
+    '(ce{k} for ce{k} in ci{k} for cg{k} in ch{k})',
+    'fn{k}(nm{k}a, lambda: lz{k})',
+]
+SCOPE_STMT_SNIPS = [
+    'pass',
+    'nm{k} = nm{k}b',
+    'def nf{k}(fa{k}=fb{k}, *, fc{k}: fd{k} = fe{k}) -> fr{k}:\n    return fa{k}',
+    'async def nf{k}(fa{k}=fb{k}):\n    pass',
+    '@dc{k}\nclass NC{k}(cb{k}, metaclass=cm{k}):\n    cx{k} = 1',
+    'if nm{k}a:\n    nm{k}b',
+    'nm{k} = [lambda la{k}=lb{k}: lc{k}, (ce{k} for ce{k} in ci{k})]',
+    'return nm{k}',
+]
+N_SCOPE_SNIPS = 8
 SWEEP_TYPES = (ast.Name, ast.arg, ast.Constant)
 
 
@@ -825,6 +950,16 @@ class SweepConsumer:
                 res.append((a, cat, parent))
         return res
 
+    @staticmethod
+    def in_function(w, a):
+        _, chain = w.parent_of(a)
+        for p in chain:
+            if isinstance(p, FUNCS):
+                return True
+            if isinstance(p, ast.ClassDef):
+                return False
+        return False
+
     def park(self, w, g, lv, can_send=True):
         k = self.k
         self.k += 1
@@ -842,7 +977,16 @@ class SweepConsumer:
                                        or isinstance(parent, (ast.BoolOp, ast.Compare, ast.Dict, ast.JoinedStr))):
                     op = None
                 if op is not None:
-                    code = None if op == 'remove' else w.code_for(cat, self.snip)
+                    if op == 'remove':
+                        code = None
+                    elif self.level == -1 and w.cfg.get('scope') and cat in ('stmt', 'expr'):
+                        w.nk += 1
+                        snips = SCOPE_STMT_SNIPS if cat == 'stmt' else SCOPE_EXPR_SNIPS
+                        code = snips[self.snip % len(snips)].replace('{k}', str(w.nk))
+                        if code.startswith('return') and not self.in_function(w, a):
+                            code = 'pass'
+                    else:
+                        code = w.code_for(cat, self.snip)
                     self.done = w.mutate(op, a, code, w.relation(g.a, a))
         return
         yield
@@ -893,20 +1037,21 @@ def sweep_plan(quick, seed):
                     for level in range(nt):
                         for op in ('replace', 'remove'):
                             plan.append((ti, api, on, back, pos, level, op))
-                    if scope:
-                        plan.append((ti, api, on, back, pos, -1, 'replace'))
+                    if scope:   # the node just yielded is replaced by every kind of node (scope kinds and others)
+                        for sn in (range(N_SCOPE_SNIPS) if api == 'walk' or not quick else ((pos + ti + seed) % N_SCOPE_SNIPS,)):
+                            plan.append((ti, api, on, back, pos, -1, 'replace', sn))
     return plan
 
 
 def sweep_case(tid, spec):
-    ti, api, on, back, pos, level, op = spec
+    ti, api, on, back, pos, level, op = spec[:7]
     src, wpath, _, scope = sweep_source(ti)
     types = None if api == 'walk' else SWEEP_TYPES
     cfg = {'on': on, 'back': back, 'recurse': True, 'self': True, 'scope': scope}
     w = Walk(tid, src, wpath, cfg, types, api=api, allform='default' if types is None else 'types',
              exact=(api != 'sub'))
     w.prog = -100 - ti
-    cons = SweepConsumer(pos, level, op, snip=1 + (pos + level) % 3)
+    cons = SweepConsumer(pos, level, op, snip=spec[7] if len(spec) > 7 else 1 + (pos + level) % 3)
     if api == 'walk':
         drive_walk(w, cons)
     elif api == 'search':
